@@ -693,7 +693,11 @@ func deathKey(stderr string) string {
 	if len(first) > 100 {
 		first = first[:100]
 	}
-	return otelFrame.FindString(stderr) + ": " + first
+	fr := otelFrame.FindString(stderr)
+	if i := strings.Index(fr, "(0x"); i >= 0 {
+		fr = fr[:i]
+	}
+	return fr + ": " + first
 }
 
 func sanitize(s string) string {
